@@ -2679,6 +2679,85 @@ func ruleAxisDim(r *Run) {
 // it: a paragraph after a nested list, the second paragraph of a loose item, … is lost.
 // ---------------------------------------------------------------------------
 
+// siblingLoops: the loops of fn that walk a goldmark child list (child = child.NextSibling()), with
+// the loop variable and the node whose children are walked.
+type sibLoop struct {
+	l     *natLoop
+	child *ssa.Phi
+	base  ssa.Value
+}
+
+func siblingLoops(fn *ssa.Function) []sibLoop {
+	var out []sibLoop
+	for _, l := range naturalLoops(fn) {
+		// the loop variable: a phi in the header fed by x.NextSibling() from inside the loop
+		var child *ssa.Phi
+		for _, in := range l.Header.Instrs {
+			ph, ok := in.(*ssa.Phi)
+			if !ok {
+				continue
+			}
+			for _, e := range ph.Edges {
+				if c, ok := e.(*ssa.Call); ok && c.Call.IsInvoke() && c.Call.Method.Name() == "NextSibling" && l.Body[c.Block()] {
+					child = ph
+				}
+			}
+		}
+		if child == nil {
+			continue
+		}
+		// the node whose children are walked
+		var base ssa.Value
+		for _, e := range child.Edges {
+			c, ok := e.(*ssa.Call)
+			if !ok || l.Body[c.Block()] {
+				continue
+			}
+			v := ssa.Value(c)
+			for i := 0; i < 6; i++ {
+				cc, ok := v.(*ssa.Call)
+				if !ok {
+					break
+				}
+				if cc.Call.IsInvoke() {
+					if cc.Call.Method.Name() != "FirstChild" && cc.Call.Method.Name() != "NextSibling" {
+						break
+					}
+					v = cc.Call.Value
+					continue
+				}
+				// node.FirstChild() on a concrete node type: a static call of the embedded
+				// BaseNode's method with the address of the embedded field
+				cn := calleeName(cc)
+				if (strings.HasSuffix(cn, ").FirstChild") || strings.HasSuffix(cn, ").NextSibling")) && len(cc.Call.Args) > 0 {
+					if _, root := addrChain(cc.Call.Args[0]); root != nil {
+						v = stripLoads(root)
+						continue
+					}
+				}
+				break
+			}
+			base = v
+		}
+		if base == nil {
+			continue
+		}
+		for i := 0; i < 4; i++ {
+			switch x := base.(type) {
+			case *ssa.MakeInterface:
+				base = x.X
+				continue
+			case *ssa.ChangeInterface:
+				base = x.X
+				continue
+			}
+			break
+		}
+		out = append(out, sibLoop{l, child, base})
+	}
+	return out
+}
+
 func ruleChildFilter(r *Run) {
 	p := r.P
 	hetero := map[string]bool{"ListItem": true, "Blockquote": true, "Document": true}
@@ -2687,70 +2766,8 @@ func ruleChildFilter(r *Run) {
 		if fn.Pkg == nil || fn.Pkg.Pkg.Path() != pkgMd {
 			continue
 		}
-		for _, l := range naturalLoops(fn) {
-			// the loop variable: a phi in the header fed by x.NextSibling() from inside the loop
-			var child *ssa.Phi
-			for _, in := range l.Header.Instrs {
-				ph, ok := in.(*ssa.Phi)
-				if !ok {
-					continue
-				}
-				for _, e := range ph.Edges {
-					if c, ok := e.(*ssa.Call); ok && c.Call.IsInvoke() && c.Call.Method.Name() == "NextSibling" && l.Body[c.Block()] {
-						child = ph
-					}
-				}
-			}
-			if child == nil {
-				continue
-			}
-			// the node whose children are walked
-			var base ssa.Value
-			for _, e := range child.Edges {
-				c, ok := e.(*ssa.Call)
-				if !ok || !c.Call.IsInvoke() || l.Body[c.Block()] {
-					continue
-				}
-				v := ssa.Value(c)
-				for i := 0; i < 6; i++ {
-					cc, ok := v.(*ssa.Call)
-					if !ok {
-						break
-					}
-					if cc.Call.IsInvoke() {
-						if cc.Call.Method.Name() != "FirstChild" && cc.Call.Method.Name() != "NextSibling" {
-							break
-						}
-						v = cc.Call.Value
-						continue
-					}
-					// node.FirstChild() on a concrete node type: a static call of the embedded
-					// BaseNode's method with the address of the embedded field
-					cn := calleeName(cc)
-					if (strings.HasSuffix(cn, ").FirstChild") || strings.HasSuffix(cn, ").NextSibling")) && len(cc.Call.Args) > 0 {
-						if _, root := addrChain(cc.Call.Args[0]); root != nil {
-							v = stripLoads(root)
-							continue
-						}
-					}
-					break
-				}
-				base = v
-			}
-			if base == nil {
-				continue
-			}
-			for i := 0; i < 4; i++ {
-				switch x := base.(type) {
-				case *ssa.MakeInterface:
-					base = x.X
-					continue
-				case *ssa.ChangeInterface:
-					base = x.X
-					continue
-				}
-				break
-			}
+		for _, sbl := range siblingLoops(fn) {
+			l, child, base := sbl.l, sbl.child, sbl.base
 			bt := base.Type()
 			if pt, ok := bt.(*types.Pointer); ok {
 				bt = pt.Elem()
@@ -3227,4 +3244,104 @@ func ruleAutoLinkLabel(r *Run) {
 	}
 	r.Count("autolink_url_calls", n)
 	r.Count("autolink_label_uses", labels)
+}
+
+// ---------------------------------------------------------------------------
+// R-INLINE-LEAVES (C19, C20): an inline walker — a loop over the children of a node that can hold
+// arbitrary inline content, with a case for *ast.Text — also has cases for the two other inline
+// kinds whose text sits in the node itself: *ast.AutoLink and *ast.String.  Delegating such a
+// child to a function that only looks at the child's CHILDREN yields nothing for them: a bare URL
+// or an e-mail address inside the span disappears.  Containers whose children are text only by
+// goldmark's construction (code spans, math nodes, tables/lists handled elsewhere) are not inline
+// containers.  One named exemption: renderTaskItemContent, which goldmark never reaches (it puts
+// the TaskCheckBox inside the item's TextBlock, while renderListItem looks for it among the direct
+// children) — confirmed by reading and by an independent reviewer; it is dead code, not a walker.
+// ---------------------------------------------------------------------------
+
+var inlineContainers = map[string]bool{"Node": true, "Emphasis": true, "Link": true, "Paragraph": true, "TextBlock": true, "Heading": true, "Strikethrough": true, "TableCell": true, "Image": true}
+
+var inlineLeavesExempt = map[string]string{
+	"(*WordRenderer).renderTaskItemContent": "unreachable: goldmark never makes renderListItem's TaskCheckBox test true",
+}
+
+func ruleInlineLeaves(r *Run) {
+	p := r.P
+	n := 0
+	for _, fn := range p.ModFuncs() {
+		if fn.Pkg == nil || fn.Pkg.Pkg.Path() != pkgMd {
+			continue
+		}
+		top := topLevel(fn)
+		exempt := false
+		for k := range inlineLeavesExempt {
+			if strings.HasSuffix(fullName(top), strings.TrimPrefix(k, "(*WordRenderer)")) && strings.Contains(fullName(top), "WordRenderer") {
+				exempt = true
+			}
+		}
+		if exempt {
+			continue
+		}
+		for _, sbl := range siblingLoops(fn) {
+			base := sbl.base
+			for i := 0; i < 4; i++ {
+				switch x := base.(type) {
+				case *ssa.MakeInterface:
+					base = x.X
+					continue
+				case *ssa.ChangeInterface:
+					base = x.X
+					continue
+				}
+				break
+			}
+			bt := base.Type()
+			if pt, ok := bt.(*types.Pointer); ok {
+				bt = pt.Elem()
+			}
+			nt, ok := bt.(*types.Named)
+			if !ok || nt.Obj().Pkg() == nil || !strings.Contains(nt.Obj().Pkg().Path(), "goldmark") || !inlineContainers[nt.Obj().Name()] {
+				continue
+			}
+			kinds := map[string]bool{}
+			textUsed := false
+			for b := range sbl.l.Body {
+				for _, in := range b.Instrs {
+					ta, ok := in.(*ssa.TypeAssert)
+					if !ok {
+						continue
+					}
+					at := ta.AssertedType
+					if pt, ok := at.(*types.Pointer); ok {
+						at = pt.Elem()
+					}
+					if an, ok := at.(*types.Named); ok && an.Obj().Pkg() != nil && strings.Contains(an.Obj().Pkg().Path(), "goldmark") {
+						kinds[an.Obj().Name()] = true
+						if an.Obj().Name() == "Text" && ta.Referrers() != nil && len(*ta.Referrers()) > 0 {
+							textUsed = true
+						}
+					}
+				}
+			}
+			if !kinds["Text"] || !textUsed {
+				continue
+			}
+			// a walker over a node of unknown kind is an inline walker only if it evidently deals with
+			// general inline content (it has a case for emphasis or links); a loop that picks the raw
+			// text segments out of a special node (math, code) is not
+			if nt.Obj().Name() == "Node" && !kinds["Emphasis"] && !kinds["Link"] {
+				continue
+			}
+			n++
+			var missing []string
+			for _, k := range []string{"AutoLink", "String"} {
+				if !kinds[k] {
+					missing = append(missing, "*ast."+k)
+				}
+			}
+			r.Check("inline-leaves", fmt.Sprintf("%s:%s", shortName(top), nt.Obj().Name()), sbl.child.Pos(), len(missing) == 0,
+				fmt.Sprintf("%s walks the inline children of a %s and handles *ast.Text: %s", shortName(top), nt.Obj().Name(),
+					map[bool]string{true: "it also handles the other kinds whose text is in the node itself", false: "it has no case for " + strings.Join(missing, ", ") + " — such a child has no children to descend into, so its text (a bare URL, an e-mail address, a typographic replacement) is lost"}[len(missing) == 0]))
+		}
+	}
+	r.Min("inline_walkers", n, 2)
 }
